@@ -1,7 +1,10 @@
 (* Properties_C08.v -- C08: verdicts do not depend on how paths are spelled. Property theorems only.
-   Model: Paths/Model.v. [walked cwd s rel] is the path string a directory walker yields for the entry with
-   project-relative path [rel] when the scan root is spelled [s] (none, ., ./, a relative sub-directory,
-   ./sub, the absolute directory, an absolute sub-directory); [norm cwd] is normalize_for_matching.
+   Model: Paths/Model.v. [walked root below] is the path string a directory walker yields for the entry whose
+   components below the scan root are [below], the root being passed through exactly as the user spelled it
+   (Path::join adds no second separator). [spells_rel root rc] / [spells_abs cc root rc] say that the string
+   [root] names the directory with project-relative components [rc]: ANY string whose components are rc, with
+   whatever stray separators, backslashes and dot components it carries (src, src/, src//, ./src/., .\src,
+   /w/p/src, /w/p//src/ ...). [norm cwd] is normalize_for_matching, [key] is path_key.
    The implementation side of the tie (tools/props/c08.py) shows that every pattern family and the baseline
    keys of the real tool are functions of the normalised path. *)
 From Coq Require Import NArith List Bool.
@@ -9,34 +12,73 @@ From SG Require Import Paths.Model Paths.Proofs.
 Import ListNotations.
 Open Scope N_scope.
 
-Theorem C08_norm_collapses : forall (cwd : str) (s : spelling) (rel : str),
-  wf_cwd cwd = true -> wf_rel rel = true -> in_root s rel = true ->
-  norm cwd (walked cwd s rel) = rel.
-Proof. exact norm_collapses. Qed.
-Print Assumptions C08_norm_collapses.
+(* every relative spelling of a root normalises each entry below it to the project-relative path *)
+Theorem C08_norm_collapses_relative : forall (cwd root : str) (rc below : list str),
+  spells_rel root rc -> clean_list below = true ->
+  norm cwd (walked root below) = join_slash (rc ++ below).
+Proof. exact norm_walked_rel. Qed.
+Print Assumptions C08_norm_collapses_relative.
 
-Theorem C08_invariant_through_norm : forall (A : Type) (site : str -> A) (cwd : str) (s1 s2 : spelling) (rel : str),
-  wf_cwd cwd = true -> wf_rel rel = true -> in_root s1 rel = true -> in_root s2 rel = true ->
-  site (norm cwd (walked cwd s1 rel)) = site (norm cwd (walked cwd s2 rel)).
+(* ... and so does every absolute spelling of a root below the current directory *)
+Theorem C08_norm_collapses_absolute : forall (cc : list str) (root : str) (rc below : list str),
+  wf_cwd_comps cc = true -> spells_abs cc root rc -> clean_list rc = true -> clean_list below = true ->
+  norm (cwd_of cc) (walked root below) = join_slash (rc ++ below).
+Proof. exact norm_walked_abs. Qed.
+Print Assumptions C08_norm_collapses_absolute.
+
+(* hence any decision that reads the path only through the normaliser gives the same answer for the same
+   entry under any two spellings of any two roots that contain it *)
+Theorem C08_invariant_through_norm : forall (A : Type) (site : str -> A) (cc : list str)
+    (r1 : str) (rc1 b1 : list str) (r2 : str) (rc2 b2 : list str),
+  wf_cwd_comps cc = true ->
+  (spells_rel r1 rc1 \/ (spells_abs cc r1 rc1 /\ clean_list rc1 = true)) ->
+  (spells_rel r2 rc2 \/ (spells_abs cc r2 rc2 /\ clean_list rc2 = true)) ->
+  clean_list b1 = true -> clean_list b2 = true ->
+  rc1 ++ b1 = rc2 ++ b2 ->
+  site (norm (cwd_of cc) (walked r1 b1)) = site (norm (cwd_of cc) (walked r2 b2)).
 Proof. exact invariant_through_norm. Qed.
 Print Assumptions C08_invariant_through_norm.
 
-Theorem C08_baseline_key_invariant : forall (cwd : str) (s1 s2 : spelling) (rel : str),
-  wf_cwd cwd = true -> wf_rel rel = true -> in_root s1 rel = true -> in_root s2 rel = true ->
-  key cwd (walked cwd s1 rel) = key cwd (walked cwd s2 rel).
+Theorem C08_baseline_key_invariant : forall (cc : list str) (r1 : str) (rc1 b1 : list str) (r2 : str) (rc2 b2 : list str),
+  wf_cwd_comps cc = true ->
+  (spells_rel r1 rc1 \/ (spells_abs cc r1 rc1 /\ clean_list rc1 = true)) ->
+  (spells_rel r2 rc2 \/ (spells_abs cc r2 rc2 /\ clean_list rc2 = true)) ->
+  clean_list b1 = true -> clean_list b2 = true ->
+  rc1 ++ b1 = rc2 ++ b2 ->
+  key (cwd_of cc) (walked r1 b1) = key (cwd_of cc) (walked r2 b2).
 Proof. exact key_invariant. Qed.
 Print Assumptions C08_baseline_key_invariant.
 
-Theorem C08_root_is_empty_path : forall cwd : str, wf_cwd cwd = true ->
-  norm cwd [c_dot] = [] /\ norm cwd [c_dot; c_slash] = [] /\ norm cwd cwd = [].
+(* a key is a fixed point of the normaliser: looking it up again finds it *)
+Theorem C08_key_fixed_point : forall (cwd : str) (cs : list str),
+  clean_list cs = true -> norm cwd (join_slash cs) = join_slash cs.
+Proof. exact norm_fixed_point. Qed.
+Print Assumptions C08_key_fixed_point.
+
+Theorem C08_root_is_empty_path : forall cc : list str, wf_cwd_comps cc = true ->
+  norm (cwd_of cc) [c_dot] = [] /\ norm (cwd_of cc) [c_dot; c_slash] = [] /\
+  norm (cwd_of cc) (cwd_of cc) = [] /\ norm (cwd_of cc) (cwd_of cc ++ [c_slash]) = [].
 Proof. exact norm_root. Qed.
 Print Assumptions C08_root_is_empty_path.
 
-(* non-vacuity: cwd = /w/p , rel = src/a.rs , all seven spellings *)
+(* non-vacuity: cwd = /w/p ; the entry src/a.rs under eight spellings of the root src and five of the
+   project root, every one of them meeting the hypotheses and normalising to src/a.rs *)
 Example C08_nonvacuous :
-  let cwd := [47;119;47;112] in let rel := [115;114;99;47;97;46;114;115] in let sub := [115;114;99] in
-  wf_cwd cwd = true /\ wf_rel rel = true /\
-  forallb (fun s => in_root s rel && str_eqb (norm cwd (walked cwd s rel)) rel)
-          [NoArg; Dot; DotSlash; Abs; Rel sub; DotRel sub; AbsSub sub] = true.
+  let w := [119] in let p := [112] in let src := [115;114;99] in let a := [97;46;114;115] in
+  let cc := [w; p] in let cwd := cwd_of cc in let rel := join_slash [src; a] in
+  let sl := c_slash in let dt := c_dot in
+  let rel_roots := [src; src ++ [sl]; src ++ [sl; sl]; dt :: sl :: src; dt :: sl :: src ++ [sl; dt];
+                    dt :: c_bslash :: src; dt :: sl :: sl :: src ++ [sl]] in
+  let abs_roots := [cwd ++ sl :: src; cwd ++ sl :: sl :: src ++ [sl]] in
+  let proj_rel := [[dt]; [dt; sl]; [dt; sl; sl]] in
+  let proj_abs := [cwd; cwd ++ [sl]] in
+  wf_cwd_comps cc = true /\ clean_list [src; a] = true /\
+  forallb (fun r => negb (is_abs (unbackslash r)) && str_eqb (join_slash (comps (unbackslash r))) src &&
+                    str_eqb (norm cwd (walked r [a])) rel) rel_roots = true /\
+  forallb (fun r => is_abs r && str_eqb (join_slash (comps r)) (join_slash (cc ++ [src])) &&
+                    str_eqb (norm cwd (walked r [a])) rel) abs_roots = true /\
+  forallb (fun r => negb (is_abs (unbackslash r)) && str_eqb (join_slash (comps (unbackslash r))) [] &&
+                    str_eqb (norm cwd (walked r [src; a])) rel) proj_rel = true /\
+  forallb (fun r => is_abs r && str_eqb (norm cwd (walked r [src; a])) rel) proj_abs = true.
 Proof. vm_compute. repeat split; reflexivity. Qed.
 Print Assumptions C08_nonvacuous.
